@@ -16,6 +16,18 @@ IDEAS = (" Look for something of a genuinely different kind and, if you can, in 
          "branch; a public function of the property's area that the list does not mention; state that survives from one handle, "
          "row group, page or call to the next (a missing reset, a cached value, a static); an integer that is narrowed, widened "
          "or compared signed/unsigned at one particular boundary; an error path taken after partial success.")
+IDEAS_H = (" Look for something of a genuinely different kind and, if you can, in a function or file that the list above does not "
+           "mention at all. Ideas that have NOT been tried much: a 'performance optimisation' (fast path, cached value, batching, "
+           "prefetch, a threshold that switches strategy, work skipped 'because it cannot matter') that is wrong for one shape of "
+           "input; a defect confined to ONE I/O mode, ONE codec, ONE physical type or ONE repetition kind while the others stay "
+           "correct; a writer-side slip that carquet's own reader tolerates but an independent reader of the format would not; a "
+           "rarely used public function declared in include/carquet/carquet.h (read the header for functions the list does not "
+           "mention); release order, double release or a forgotten release on a path taken only after an earlier step succeeded and "
+           "a later one failed; C integer promotion, sign extension or truncation at exactly one width; an off-by-one that needs a "
+           "value exactly at a power of two (255/256, 65535/65536, 2^31, 2^32); behaviour that differs between the first and a "
+           "later use of the same handle, thread or process; two statements swapped so that a value is used before it is updated.")
+if tag >= "h":
+    IDEAS = IDEAS_H
 subprocess.run([sys.executable, os.path.join(V, "tools", "mutprep.py"), tag] + props, check=True)
 tmpl = open(os.path.join(V, "tools", "mutprompt.txt")).read()
 for pid in props:
